@@ -8,6 +8,7 @@ package h
 import (
 	"fmt"
 	"math/rand"
+	"strings"
 	"time"
 )
 
@@ -44,6 +45,25 @@ func famStreams(w *World, c *Case, rng *rand.Rand) {
 	gated := c.p("gated", 0) == 1
 	if gated {
 		w.Conn.SetGated(true)
+	}
+	if w.Cfg.RevisionOne() && !gated && w.Cfg.CapFrames == 0 && !strings.HasPrefix(w.Cfg.Dir, "nested") && c.p("big", 0) == 0 && rng.Intn(2) == 0 {
+		// Clean runs (no cancellation, no tear-down): nobody but the sending goroutine itself ever
+		// wants the stream's write mutex, so the sender may be parked in virtual time between its
+		// window load, its compare-and-swap and the emission, and window updates between their
+		// add and their signal: compare-and-swap failures and zero-window waits then happen at
+		// tunnel level, under the delivery oracle.
+		plan := &YieldPlan{Parks: map[string][]time.Duration{}}
+		for _, pt := range []string{"fc.send.loaded", "fc.send.beforeCAS", "fc.send.reserved", "fc.update.added", "fc.send.beforeWait", "fc.dequeue.beforeCredit"} {
+			ds := make([]time.Duration, 4000)
+			for i := range ds {
+				if rng.Intn(3) == 0 {
+					ds[i] = time.Duration(1+rng.Intn(40)) * time.Nanosecond
+				}
+			}
+			plan.Parks[pt] = ds
+		}
+		w.installYield(plan)
+		w.Stat("streams_with_sender_parks", 1)
 	}
 	for _, s := range specs {
 		w.Env.StartRPC(w.RootCtx, w.Ch, s)
